@@ -1,9 +1,11 @@
 --------------------------- MODULE MC_RWLockIndEq ---------------------------
 (* Binding of RWLockInd.tla (the Apalache-typed restatement used for the inductive
    argument) to RWLock.tla (the model that is bound to the real code by check C20).
-   TLC evaluates both on EVERY state of the instance - arbitrary pc, owner, counters
-   and passes left, reachable or not, exactly the states the inductive step quantifies
-   over - and requires them to agree:
+   TLC evaluates both on EVERY state of the instance that satisfies RWLockInd!Roles
+   (the first, purely local conjunct of the inductive invariant: readers at reader labels,
+   writers at writer labels, done iff no pass left) - arbitrary pc, owner, counters and
+   passes left, reachable or not, i.e. a superset of the states the inductive step
+   quantifies over - and requires them to agree:
 
      TableEq      OpOf/LockOf/Labels of RWLockInd are the columns of RWLock!Info
      StepEq       per thread, the two step relations are the same relation
@@ -15,12 +17,16 @@
    A step of thread t reads pc[t], left[t], rc, wc and whether a lock is free, and
    writes pc[t], left[t], rc, wc and owner[l] := t or 0, so one reader and one writer
    with both counters ranging over 0..2 (first / not first, last / not last) exercise
-   every branch of every action; the run with 2 readers and 1 writer is there so that
-   nothing rests on that remark alone for the reader side.
+   every branch of every action ("all": 955 719 states).  So that nothing rests on that
+   remark alone, the same invariants are also checked on the reachable states of the
+   2 readers + 2 writers x 2 passes instance ("reach").
 
    cfg (written by harness/apalache.py):
-     CONSTANTS R = 1  W = 1  Passes = 2    INIT EqInit  NEXT EqNext
-     INVARIANTS StepEq NextEq EnabledEq PropEq InitEq *)
+     all:    CONSTANTS R = 1 W = 1 Passes = 2   INIT EqSeed NEXT EqFan
+     reach:  CONSTANTS R = 2 W = 2 Passes = 2   INIT Init   NEXT Next
+     INVARIANTS StepEq NextEq EnabledEq PropEq InitEq
+   (EqSeed/EqFan instead of one big INIT: TLC enumerates initial states on one thread, successors
+   on all workers.) *)
 EXTENDS MC_RWLock
 
 Ind == INSTANCE RWLockInd
@@ -32,11 +38,15 @@ TableEq == /\ Ind!Labels = Labels
 ASSUME TableEq
 
 CMax == 2
-EqInit == /\ pc \in [Threads -> Labels]
-          /\ owner \in [Locks -> Threads \cup {0}]
-          /\ rc \in 0..CMax /\ wc \in 0..CMax
+Free == [l \in Locks |-> 0]
+EqSeed == /\ pc \in [Threads -> Labels]
           /\ left \in [Threads -> 0..Passes]
-EqNext == UNCHANGED vars
+          /\ Ind!Roles
+          /\ owner = Free /\ rc = 0 /\ wc = 0
+EqFan == /\ owner = Free /\ rc = 0 /\ wc = 0
+         /\ UNCHANGED <<pc, left>>
+         /\ owner' \in [Locks -> Threads \cup {0}]
+         /\ rc' \in 0..CMax /\ wc' \in 0..CMax
 
 Same(A, B) == ~ ENABLED (A /\ ~B) /\ ~ ENABLED (B /\ ~A)
 
